@@ -408,9 +408,168 @@ def rule_r4(ck, prog, rule='C20.R4'):
             if not lab or not isinstance(lab[0], int):
                 return False
             r = relation(g, rd, lab[1], lab[0], a.ctx, lab[2])
-            return r is not None and r[0] == '>=0' and dict(r[1]).get('param:pos') == -1 and dict(r[1]).get('1') == -1
+            # pos < size, or pos <= size (an empty remainder is searched: the count size - pos cannot underflow either way)
+            return r is not None and r[0] == '>=0' and dict(r[1]).get('param:pos') == -1 and dict(r[1]).get('1', 0) in (-1, 0)
         ok = bool(tf) and all(g.must_pass_edge(p, inrange) for p in tf)
         ck.verdict(ok, rule, f, 'find-searches-only-in-range', tf[0].n if tf else None, 'search only behind pos < size' if ok else 'find can search from a position past the end of the view')
+
+
+def rule_r6(ck, prog, rule='C20.R6'):
+    """string_view: operations defined in terms of one another agree (sibling rules and small decision tables):
+    * operator< / operator> are the sign of compare (table over compare = -1, 0, 1);
+    * every operator!= overload is the negation of operator== on its own two operands, in order; every mixed operator== overload
+      converts its operands and delegates to the (string_view, string_view) one, in order;
+    * every compare overload hands its (pos, count) pairs, in declaration order, to substr of the operand they belong to;
+    * find returns the offset from the start of the view, not from the search position (constant folding with the result of
+      Traits::find pinned to data + k)."""
+    from ..inteval import ieval
+    cnt = 0
+    SV = 'nostd::string_view'
+    # --- relational members
+    want = {'operator<': lambda c: c < 0, 'operator>': lambda c: c > 0, 'operator<=': lambda c: c <= 0, 'operator>=': lambda c: c >= 0}
+    for name, pred in sorted(want.items()):
+        for f in sorted(prog.functions(SV + '::' + name), key=lambda x: x.key):
+            if not f.blocks:
+                continue
+            g = Graph(prog, f, inline=None, sync_lambdas=False)
+            rd = reaching_defs(g)
+            rets = g.returns()
+            bad = None
+            unknown = False
+            for c in (-1, 0, 1):
+                vals = {repr(ieval(g, rd, f, r.n['e'], r.ctx, {'call:compare': c})) for r in rets}
+                if len(vals) != 1 or 'None' in vals:
+                    unknown = True
+                    break
+                v = eval(vals.pop())
+                if bool(v) != pred(c):
+                    bad = 'with compare() = %d, %s yields %s' % (c, name, bool(v))
+                    break
+            cnt += 1
+            if unknown:
+                ck.inconclusive(rule, f, 'relational-is-sign-of-compare:%s' % name, None, 'the result does not fold from the value of compare()')
+            else:
+                ck.verdict(bad is None, rule, f, 'relational-is-sign-of-compare:%s' % name, rets[0].n if rets else None,
+                           '%s is the sign of compare (3 rows)' % name if bad is None else bad + ': ordering disagrees with compare and with std::string_view')
+    # --- != is !(==) on the same operands; mixed == delegates in order
+    for opname in ('operator!=', 'operator=='):
+        for f in sorted(prog.functions('nostd::' + opname), key=lambda x: x.key):
+            if not f.blocks or len(f.params) != 2 or not any('string_view' in p['t'] for p in f.params):
+                continue
+            if opname == 'operator==' and all('nostd::string_view' in p['t'] for p in f.params):
+                continue          # the base case, decided by C20.R3
+            rets = [n for n in f.nodes if n['k'] == 'return' and n.get('e') is not None and n['e'] >= 0]
+            eqs = [n for n in f.nodes if n['k'] == 'call' and n.get('op') == '==' and strip_targs(n.get('c', '')).endswith('nostd::operator==')]
+            why = None
+            site = '%s(%s)' % (opname, ','.join(re.sub(r'opentelemetry::|nostd::|std::|const | &|basic_string<char>', lambda m: 'string' if 'basic' in m.group(0) else '', p['t']).strip() for p in f.params))
+            ptrcmp = [n for n in f.nodes if n['k'] == 'binop' and n['op'] in ('==', '!=') and
+                      (f.nodes[n['lhs']].get('t') or '').rstrip().endswith('*') and (f.nodes[n['rhs']].get('t') or '').rstrip().endswith('*')]
+            if ptrcmp:
+                why = 'compares the addresses of the character data, not the characters'
+            elif len(rets) != 1 or len(eqs) != 1:
+                cnt += 1
+                ck.inconclusive(rule, f, 'delegates-to-equality:' + site, rets[0] if rets else None, 'not written as one delegation to operator==; the rule does not decide other implementations')
+                continue
+            else:
+                e = strip_casts(f, rets[0]['e'])
+                negs = 0
+                while e['k'] == 'unop' and e['op'] == '!':
+                    negs += 1
+                    e = strip_casts(f, e['e'])
+                while e['k'] in ('paren',):
+                    e = strip_casts(f, e['e'])
+                if e['i'] != eqs[0]['i']:
+                    why = 'the result is not the delegated comparison itself'
+                elif (negs % 2 == 1) != (opname == 'operator!='):
+                    why = 'the polarity of the delegated comparison is wrong'
+                else:
+                    # operand k derives from parameter k only (directly or through a string_view conversion of exactly that parameter)
+                    for k, a in enumerate(eqs[0]['args'][:2]):
+                        an = strip_casts(f, a)
+                        hops = 0
+                        while an['k'] == 'construct' and len(an.get('args', [])) == 1 and hops < 4:
+                            an = strip_casts(f, an['args'][0])
+                            hops += 1
+                        if not (an['k'] == 'ref' and an.get('id') == f.params[k]['id']):
+                            why = 'operand %d of the delegated comparison is not parameter %d (%s) as a whole' % (k + 1, k + 1, f.params[k]['name'])
+                            break
+            cnt += 1
+            site = '%s(%s)' % (opname, ','.join(re.sub(r'opentelemetry::|nostd::|std::|const | &|basic_string<char>', lambda m: 'string' if 'basic' in m.group(0) else '', p['t']).strip() for p in f.params))
+            ck.verdict(why is None, rule, f, 'delegates-to-equality:' + site, rets[0] if rets else None,
+                       'delegates to operator==(string_view, string_view) on its own operands' if why is None else
+                       '%s: %s - it can answer differently from the comparison it stands for' % (site, why))
+    # --- compare overloads: (pos, count) pairs reach substr in order
+    for f in sorted(prog.functions(SV + '::compare'), key=lambda x: x.key):
+        if not f.blocks or len(f.params) < 3:
+            continue
+        subs = [n for n in f.nodes if n['k'] == 'call' and strip_targs(n.get('c', '')).endswith('string_view::substr')]
+        why = None
+        pidx = {p['id']: i for i, p in enumerate(f.params)}
+        used = []
+        for n in subs:
+            args = [strip_casts(f, a) for a in n.get('args', []) if a is not None and a >= 0]
+            ids = [pidx.get(a.get('id')) if a['k'] == 'ref' else None for a in args]
+            if len(ids) != 2 or None in ids or ids[1] != ids[0] + 1:
+                why = 'a substr call does not receive a (position, count) parameter pair in declaration order'
+                break
+            on = strip_casts(f, n['obj']) if n.get('obj') is not None else None
+            owner = 'this' if on is not None and on['k'] == 'this' else (pidx.get(on.get('id')) if on is not None and on['k'] == 'ref' else None)
+            if ids[0] == 0 and owner != 'this':
+                why = 'the first (pos, count) pair is not applied to *this'
+                break
+            if ids[0] > 0 and owner != ids[0] - 1:
+                why = 'a (pos, count) pair is applied to an operand it does not belong to'
+                break
+            used.append(ids[0])
+        int_params = [i for i, p in enumerate(f.params) if 'unsigned long' in p['t'] or 'size_t' in p['t']]
+        if why is None:
+            # every position parameter is consumed by a substr (a count that only bounds a C string is consumed by its constructor)
+            pos_like = [i for i in int_params if i + 1 in int_params]
+            missing = [i for i in pos_like if i not in used]
+            if missing:
+                why = 'parameter %s is not used as a sub-range position' % f.params[missing[0]]['name']
+        cnt += 1
+        site = 'compare(%d parameters%s)' % (len(f.params), ',cstr' if any('char *' in p['t'] for p in f.params) else '')
+        ck.verdict(why is None, rule, f, 'compare-forwards-subranges:' + site, subs[0] if subs else None,
+                   'sub-range parameters reach substr in order' if why is None else 'string_view::%s: %s' % (site, why))
+    # --- find: offset from the start of the view
+    for f in sorted(prog.functions(SV + '::find'), key=lambda x: x.key):
+        if not f.blocks or len(f.params) != 2 or f.params[0]['t'] != 'char':
+            continue
+        g = Graph(prog, f, inline=None, sync_lambdas=False)
+        rd = reaching_defs(g)
+        tf = [n for n in f.nodes if n['k'] == 'call' and strip_targs(n.get('c', '')).endswith('char_traits::find')]
+        if len(tf) != 1:
+            ck.inconclusive(rule, f, 'find-offset-from-view-start', None, 'Traits::find call not found')
+            continue
+        # the variable holding the result of Traits::find and the definitions computed from it
+        holder = [d for n in f.nodes if n['k'] == 'declstmt' for d in n['decls'] if d.get('init') is not None and tf[0]['i'] in list(f.subtree(d['init'])) + [d['init']]]
+        env = {'this.length_': 7, 'this.length()': 7, 'this.size()': 7, 'this.data_': ('ptr', 'chars', 0), 'this.data()': ('ptr', 'chars', 0), 'param:' + f.params[1]['name']: 2, 'call:find': ('ptr', 'chars', 5)}
+        if holder:
+            env['local:' + holder[0]['name']] = ('ptr', 'chars', 5)
+        vals = []
+        for n in f.nodes:
+            defs = defs_in_node(f, n) if n['k'] in ('binop', 'declstmt', 'return') or n['k'] == 'call' else []
+            for (vid, strong, vx) in defs:
+                if vx is None or vx < 0 or not strong or (holder and vid == holder[0]['id']):
+                    continue
+                sub = list(f.subtree(vx)) + [vx]
+                if any(f.nodes[i]['k'] == 'ref' and holder and f.nodes[i].get('id') == holder[0]['id'] for i in sub) or tf[0]['i'] in sub:
+                    pt = g.point_of.get((id(g.root_ctx), vx))
+                    vals.append((n, ieval(g, rd, f, vx, g.root_ctx, env)))
+            if n['k'] == 'return' and n.get('e') is not None and n['e'] >= 0:
+                sub = list(f.subtree(n['e'])) + [n['e']]
+                if any(f.nodes[i]['k'] == 'ref' and holder and f.nodes[i].get('id') == holder[0]['id'] for i in sub) or tf[0]['i'] in sub:
+                    vals.append((n, ieval(g, rd, f, n['e'], g.root_ctx, env)))
+        cnt += 1
+        if not vals or any(v is None for (_n, v) in vals):
+            ck.inconclusive(rule, f, 'find-offset-from-view-start', tf[0], 'the offset computed from the search result does not fold')
+        else:
+            bad = [(n, v) for (n, v) in vals if v != 5]
+            ck.verdict(not bad, rule, f, 'find-offset-from-view-start', bad[0][0] if bad else tf[0],
+                       'a character found at data()+5 (searching from 2) is reported at 5' if not bad else
+                       'a character found at data()+5 when searching from position 2 is reported at %s: find answers relative to the search position, std::string_view::find relative to the view' % (bad[0][1],))
+    return cnt
 
 
 def run(ck, prog):
@@ -419,6 +578,7 @@ def run(ck, prog):
     ck.doc('C20.R3', 'string_view equality cannot hold for different lengths; compare falls back to sizes and orders characters as unsigned bytes', 3)
     ck.doc('C20.R4', 'substr / find guards and offsets', 4)
     ck.doc('C20.R5', 'std::hash<nostd::string_view> depends on the characters only', 1)
+    ck.doc('C20.R6', 'string_view siblings agree: relational members are the sign of compare, != / mixed == delegate to == on their own operands, compare overloads forward their sub-range pairs, find reports the offset from the view start', 16)
     with ck.canary('C20.R1'):
         rule_r1(ck, prog, cls='canary::c20::bad_ptr')
     rule_r1(ck, prog)
@@ -427,4 +587,5 @@ def run(ck, prog):
     rule_r3(ck, prog)
     rule_r4(ck, prog)
     rule_r5(ck, prog)
+    rule_r6(ck, prog)
     return {}
